@@ -394,6 +394,7 @@ Definition run_dispatch (E : endian) (checks : bool) (op : list N) : list N :=
               | 1 => const_call okind (nth0 op 2)
               | 2 => func_call okind c
               | 5 => Some (direct_call c)       (* the code's own method, for comparison *)
+              | 6 => named_const_call okind c   (* ConstCode<{code_consts::NAME}> *)
               | _ => factory_call c end in
   match call with
   | None => [1]    (* rejected: Err from new() / panic on unknown id *)
